@@ -894,7 +894,7 @@ def parts(tier):
             name="oks",
             evaluate=evaluate_oks,
             strategy=oks_strategy,
-            budget={"quick": 1200, "thorough": 60000},
+            budget={"quick": 1200, "thorough": 300000},
             shards={"quick": 1, "thorough": 16},
             min_nontrivial={"quick": 150, "thorough": 8000},
         ),
@@ -902,7 +902,7 @@ def parts(tier):
             name="match",
             evaluate=evaluate_match,
             strategy=match_strategy,
-            budget={"quick": 700, "thorough": 30000},
+            budget={"quick": 700, "thorough": 150000},
             shards={"quick": 1, "thorough": 16},
             min_nontrivial={"quick": 70, "thorough": 3000},
         ),
@@ -910,7 +910,7 @@ def parts(tier):
             name="helpers",
             evaluate=evaluate_helpers,
             strategy=helpers_strategy,
-            budget={"quick": 900, "thorough": 40000},
+            budget={"quick": 900, "thorough": 200000},
             shards={"quick": 1, "thorough": 16},
             min_nontrivial={"quick": 120, "thorough": 6000},
         ),
